@@ -70,6 +70,14 @@ def check_case(case) -> Outcome:
         # compromises before the copy, in an order that need not follow the attacker order
         if g.attackers and g.nodes:
             g.attackers[j % len(g.attackers)].compromise(g.nodes[i % len(g.nodes)])
+    for i in case.get('pre_removals', []):
+        # removals before the copy (the id counter is then ahead of the highest live id)
+        if len(g.nodes) > 1:
+            try:
+                g.remove_node(g.nodes[i % len(g.nodes)])
+            except Exception as e:
+                out.add('preparation-raises', f'{type(e).__name__}: {e}')
+                return out
     base = snapshot(g)
     try:
         c = copy.deepcopy(g)
@@ -91,6 +99,20 @@ def check_case(case) -> Outcome:
     for attr in ('next_node_id', 'next_attacker_id'):
         if hasattr(g, attr) and getattr(g, attr) != getattr(c, attr, None):
             out.add('copy-counter-differs', attr)
+    # counters as observed by the next add_node on both graphs (the probe nodes are removed again)
+    try:
+        from maltoolbox.attackgraph import AttackGraphNode as _N
+        n1, n2 = _N(type='or', name='probe'), _N(type='or', name='probe')
+        g.add_node(n1)
+        c.add_node(n2)
+        if n1.id != n2.id:
+            out.add('copy-assigns-different-next-id', f'{n1.id} != {n2.id}')
+        for sig, msg in structural_problems(c):
+            out.add('copy-after-add_node:' + sig, msg)
+        g.remove_node(n1)
+        c.remove_node(n2)
+    except Exception as e:
+        out.add('copy-add_node-raises', f'{type(e).__name__}: {e}')
     for n in g.nodes:
         m = c.get_node_by_id(n.id)
         if m is None or m.full_name != n.full_name or c.get_node_by_full_name(n.full_name) is not m:
@@ -193,7 +215,8 @@ def _mutations(n):
 def ag_cases(draw):
     g = draw(aggen.graphs(max_nodes=8, min_nodes=1, labels=draw(st.booleans()), attackers=2, extras=True))
     return {'start': 'ag', 'graph': g, 'mutations': draw(_mutations(8)),
-            'pre_compromises': draw(st.lists(st.tuples(st.integers(0, 3), st.integers(0, 7)).map(list), max_size=4))}
+            'pre_compromises': draw(st.lists(st.tuples(st.integers(0, 3), st.integers(0, 7)).map(list), max_size=4)),
+            'pre_removals': draw(st.lists(st.integers(0, 7), max_size=2))}
 
 
 @st.composite
@@ -202,7 +225,8 @@ def gen_cases(draw):
                             {'max_assets': 4, 'attackers': True, 'min_assets': 1}))
     return {'start': 'gen', 'spec': c['spec'], 'model': c['model'], 'analyse': draw(st.booleans()),
             'mutations': draw(_mutations(8)),
-            'pre_compromises': draw(st.lists(st.tuples(st.integers(0, 3), st.integers(0, 7)).map(list), max_size=4))}
+            'pre_compromises': draw(st.lists(st.tuples(st.integers(0, 3), st.integers(0, 7)).map(list), max_size=4)),
+            'pre_removals': draw(st.lists(st.integers(0, 7), max_size=2))}
 
 
 CLAUSES = [
